@@ -181,8 +181,13 @@ func (g *VerifC07LoopRig) Heartbeats() map[string]int64 {
 
 func verifC07LoopPassRunning() bool {
 	buf := make([]byte, 1<<20)
-	n := runtime.Stack(buf, true)
-	return strings.Contains(string(buf[:n]), "cleanupTimeoutClient.func")
+	for {
+		n := runtime.Stack(buf, true)
+		if n < len(buf) {
+			return strings.Contains(string(buf[:n]), "cleanupTimeoutClient.func")
+		}
+		buf = make([]byte, 2*len(buf)) // the dump was truncated: every goroutine must be seen
+	}
 }
 
 // CleanupTimeout runs ONE real cleanupTimeoutClient pass as if the wall clock read nowMs on the rig's axis: every entry
